@@ -49,6 +49,11 @@ static _Atomic rid_t c_b = 0;
 
 static _Atomic nid_t gvt_nodes;
 
+/// Set while the calling thread waits in gvt_msg_drain() for its peers: it must not start new reductions
+static __thread bool gvt_draining;
+/// The count of threads of this node which have entered gvt_msg_drain()
+static _Atomic rid_t gvt_drain_cnt;
+
 /// The count of GVT reductions completed by this thread
 /** A computed GVT can legitimately be 0.0, so the value returned by gvt_phase_run() can't signal completion */
 static __thread unsigned gvt_rounds_done;
@@ -267,7 +272,7 @@ simtime_t gvt_phase_run(void)
 	if(unlikely(atomic_load_explicit(&c_b, memory_order_relaxed)))
 		gvt_start_processing();
 
-	if(unlikely(!rid && !nid)) {
+	if(unlikely(!rid && !nid && !gvt_draining)) {
 		timer_uint t = timer_new();
 		if(unlikely(global_config.gvt_period < t - gvt_timer &&
 			    !atomic_load_explicit(&gvt_nodes, memory_order_relaxed))) {
@@ -282,12 +287,23 @@ simtime_t gvt_phase_run(void)
 
 void gvt_msg_drain(void)
 {
-	while(thread_phase != thread_phase_idle) // flush partial gvt algorithm
+	// A peer still in the main loop may be running, or about to join, a reduction which needs this thread:
+	// keep stepping the algorithm until every local thread is here and no reduction is in progress
+	gvt_draining = true;
+	atomic_fetch_add_explicit(&gvt_drain_cnt, 1U, memory_order_relaxed);
+	while(thread_phase != thread_phase_idle ||
+	      atomic_load_explicit(&gvt_drain_cnt, memory_order_relaxed) != global_config.n_threads ||
+	      atomic_load_explicit(&gvt_nodes, memory_order_relaxed)) {
 		gvt_phase_run();
+		mpi_remote_msg_drain();
+	}
 
-	if(sync_thread_barrier())
+	if(sync_thread_barrier()) {
+		atomic_store_explicit(&gvt_drain_cnt, 0U, memory_order_relaxed);
 		mpi_node_barrier();
+	}
 	sync_thread_barrier();
+	gvt_draining = false;
 
 	for(int i = 0; i < 2; ++i) { // flush both gvt phases
 		gvt_timer = 0;       // this satisfies the timer condition
